@@ -997,6 +997,8 @@ func TestC16(t *testing.T) {
 			// (on a second app instance: after a Commit the pending block state has no block gas meter until the next
 			// FinalizeBlock, so runTx outside a block — the tx / authz lines above — is only possible before the first one)
 			tw2.blockStream(rng, cases, junk(rng), other)
+			// round 5: blocks of multi-message, multi-signer transactions, MsgExec inside blocks (blkn lines)
+			tw2.blockStreamN(rng, cases, junk(rng), other)
 		}
 	}
 }
